@@ -518,6 +518,29 @@ func pendingRewards(w *World, ctx sdk.Context) map[string]*big.Int {
 	return total
 }
 
+type c13snap struct {
+	bal map[string]math.Int       // holder|pool -> committed shares
+	acc map[string]math.LegacyDec // pool|denom -> acc per share
+}
+
+func snapC13(w *World) *c13snap {
+	ctx := w.RCtx()
+	s := &c13snap{bal: map[string]math.Int{}, acc: map[string]math.LegacyDec{}}
+	k := w.App.MasterchefKeeper
+	for _, pri := range k.GetAllPoolRewardInfos(ctx) {
+		s.acc[fmt.Sprintf("%d|%s", pri.PoolId, pri.RewardDenom)] = pri.PoolAccRewardPerShare
+	}
+	for _, pi := range k.GetAllPoolInfos(ctx) {
+		for _, cm := range w.App.CommitmentKeeper.GetAllCommitments(ctx) {
+			b := k.GetPoolBalance(ctx, pi.PoolId, sdk.MustAccAddressFromBech32(cm.Creator))
+			if b.IsPositive() {
+				s.bal[fmt.Sprintf("%s|%d", cm.Creator, pi.PoolId)] = b
+			}
+		}
+	}
+	return s
+}
+
 func OracleC13() *Oracle {
 	return &Oracle{Name: "C13", State: func(w *World) Measure {
 		ctx := w.RCtx()
@@ -535,7 +558,113 @@ func OracleC13() *Oracle {
 			}
 		}
 		return m
-	}}
+	},
+		// a holder whose committed balance of a pool went from zero to positive in this block may have
+		// been credited at most this block's distribution on that balance: nothing from earlier blocks
+		Pre: func(w *World, op *Op, plan *BlockPlan) interface{} { return snapC13(w) },
+		Post: func(t *Transition) []Finding {
+			pre := t.Pre.(*c13snap)
+			post := snapC13(t.W)
+			ctx := t.W.RCtx()
+			k := t.W.App.MasterchefKeeper
+			var out []Finding
+			for key, b := range post.bal {
+				if _, had := pre.bal[key]; had {
+					continue
+				}
+				var holder string
+				var pool uint64
+				parts := strings.SplitN(key, "|", 2)
+				holder = parts[0]
+				fmt.Sscanf(parts[1], "%d", &pool)
+				addr := sdk.MustAccAddressFromBech32(holder)
+				for ad, accPost := range post.acc {
+					var p2 uint64
+					var denom string
+					pp := strings.SplitN(ad, "|", 2)
+					fmt.Sscanf(pp[0], "%d", &p2)
+					denom = pp[1]
+					if p2 != pool {
+						continue
+					}
+					accPre, ok := pre.acc[ad]
+					if !ok {
+						accPre = math.LegacyZeroDec()
+					}
+					uri, found := k.GetUserRewardInfo(ctx, addr, pool, denom)
+					pend, debt := math.LegacyZeroDec(), math.LegacyZeroDec()
+					if found {
+						pend, debt = uri.RewardPending, uri.RewardDebt
+					}
+					pending := pend.Add(accPost.MulInt(b).Sub(debt).QuoInt(ammtypes.OneShare))
+					limit := accPost.Sub(accPre).MulInt(b).QuoInt(ammtypes.OneShare).Add(math.LegacyOneDec())
+					Clauses.Inc("fresh_commit_earns_only_this_block")
+					if pending.GT(limit) {
+						out = append(out, Finding{Clause: "fresh_commit_credited_past_rewards", Disc: "denom=" + denom, Detail: fmt.Sprintf("holder %s committed %s shares of pool %d in this block and is already credited %s %s; this block's distribution on that balance is at most %s", holder, b, pool, pending, denom, limit)})
+					}
+				}
+			}
+			return out
+		},
+	}
+}
+
+// C13Drain: below a node, every claimant claims in every order (one block per order, all claims in
+// it); every claim must succeed. The leveraged-LP claim of t1's positions goes first or last.
+func C13Drain(maxDepth int) func(x *Explorer, depth int, path []string, root string, phase int) {
+	holders := []string{"lp1", "lp2", "t1", "t2"}
+	var perms [][]string
+	var rec func(cur []string, rest []string)
+	rec = func(cur, rest []string) {
+		if len(rest) == 0 {
+			perms = append(perms, append([]string{}, cur...))
+			return
+		}
+		for i := range rest {
+			nr := append(append([]string{}, rest[:i]...), rest[i+1:]...)
+			rec(append(cur, rest[i]), nr)
+		}
+	}
+	rec(nil, holders)
+	return func(x *Explorer, depth int, path []string, root string, phase int) {
+		if depth > maxDepth {
+			return
+		}
+		w := x.W
+		v, env := w.Height(), w.Env
+		ids := []uint64{}
+		for _, ps := range w.LLPsOf("t1") {
+			ids = append(ids, ps.Id)
+		}
+		for pi, perm := range perms {
+			plan := &BlockPlan{Dt: 5, Feed: true}
+			llp := PlannedTx{Signer: "t1", Msgs: []sdk.Msg{&llptypes.MsgClaimRewards{Sender: w.A("t1").Addr.String(), Ids: ids}}}
+			if len(ids) > 0 && pi%2 == 0 {
+				plan.Txs = append(plan.Txs, llp)
+			}
+			for _, h := range perm {
+				plan.Txs = append(plan.Txs, PlannedTx{Signer: h, Msgs: []sdk.Msg{&mctypes.MsgClaimRewards{Sender: w.A(h).Addr.String(), PoolIds: []uint64{1, 2, uint64(sstypes.PoolId)}}}})
+			}
+			if len(ids) > 0 && pi%2 == 1 {
+				plan.Txs = append(plan.Txs, llp)
+			}
+			br := w.Exec(plan)
+			x.CountTransition()
+			if br.OK() {
+				Clauses.Inc("drain_orders")
+				for i, ti := range plan.TxIndex {
+					if r := br.Res.TxResults[ti]; r.Code != 0 {
+						log := r.Log
+						if len(log) > 160 {
+							log = log[:160]
+						}
+						x.Record(Finding{Clause: "claim_failed_in_drain", Culprit: "drain", Disc: "claimant_position=" + fmt.Sprint(i), Detail: fmt.Sprintf("after %s%v, claim order %v: claim #%d (signer %s) failed: %s", root, path, perm, i, plan.Txs[i].Signer, log)}, root, path, phase)
+					}
+				}
+			}
+			w.Rollback(v, env)
+		}
+	}
 }
 
 // ---------------------------------------------------------------------------------------------
